@@ -85,6 +85,7 @@ DETECT.update({
     "C09h": ("C09", "blocking-report:missing:sqlite", ""),
     "C10g": ("C10", "history:missing-entry:*:mem", ""),
     "C10h": ("C10", "history:filed-under-other-invocation:*", ""),
+    "C14g": ("C14", "pool-not-at-capacity:ppr:plain", ""),
     "C16g": ("C16", "diverge:return:paginate:value", ""),
     "C16h": ("C16", "diverge:return:t_get_triggers:value", "needed strengthening: a trigger-definition component (register / re-register / clean per task on shared conditions)"),
     "C18g": ("C18", "replay-differs:{random,time,uuid}", ""),
